@@ -5,7 +5,8 @@ Quick == IOEnv.TIER = "quick"
 Archs == {"x86", "x64"}
 Lfanews == IF Quick THEN {64, 128, 1020} ELSE {64, 72, 128, 248, 512, 1020}
 PrepLens == IF Quick THEN {0, 3, 959, 1023} ELSE {0, 1, 3, 8, 512, 895, 896, 959, 1022, 1023}
-Exports == {"none", "first", "last"}
+\* export directory: absent / in the first or last section at offset 16 / at the very start of the first section / ending the last section
+Exports == {"none", "first", "last", "first0", "lastend"}
 Appends == {"none", "bytes", "pad", "bytespad"}
 Magics == {"default", "custom"}
 Scn == Archs \X Lfanews \X PrepLens \X Exports \X Appends \X Magics
@@ -15,14 +16,15 @@ Img(x) == LET arch == x[1] IN
     lfanew |-> x[2],
     magicMZ |-> IF x[6] = "custom" THEN (IF arch = "x64" THEN <<79, 79, 80, 83>> ELSE <<72, 73>>) ELSE (IF arch = "x64" THEN <<77, 90, 65, 82>> ELSE <<77, 90>>),
     magicPE |-> IF x[6] = "custom" THEN <<69, 65, 0, 0>> ELSE <<80, 69, 0, 0>>,
-    nsec |-> 2, expsec |-> IF x[4] = "last" THEN 2 ELSE 1, secsize |-> 512,
+    nsec |-> 2, expsec |-> IF x[4] \in {"last", "lastend"} THEN 2 ELSE 1, secsize |-> 512,
+    expoff |-> CASE x[4] = "first0" -> 0 [] x[4] = "lastend" -> 512 - 40 [] OTHER -> 16,
     prepend |-> Rep(144, x[3]),
     append |-> CASE x[5] = "none" -> <<>> [] x[5] = "bytes" -> <<1, 2, 3, 255>> [] x[5] = "pad" -> Zeros(16) [] OTHER -> <<7, 0, 8>> \o Zeros(13)]
 \* a compact image (one 64-byte section) behind a prepend that looks like a table of small dwords: every scan offset inside the
 \* prepend reads a plausible e_lfanew, most of them pointing past the end of the stage
 DwordTable(n) == [i \in 1..n |-> CASE i % 4 = 1 -> 232 [] i % 4 = 2 -> 3 [] OTHER -> 0]          \* 1000 as u32le, repeated
 SmallImg(arch, n, exp) == [Img(<<arch, 64, 0, exp, "bytes", "default">>) EXCEPT !.nsec = 1, !.expsec = 1, !.secsize = 64, !.prepend = DwordTable(n)]
-SmallScn == Archs \X {61, 64, 257, 600, 959, 1020} \X {"none", "first"}
+SmallScn == Archs \X {61, 64, 257, 600, 959, 1020} \X {"none", "first", "first0"}
 Table == LET q == SetToSeq(Scn)  qs == SetToSeq(SmallScn) IN
          [i \in 1..Len(q) |-> [scn |-> q[i], stage |-> Stage(Img(q[i])), expect |-> Artifacts(Img(q[i]))]]
          \o [i \in 1..Len(qs) |-> [scn |-> <<qs[i][1], 64, qs[i][2], qs[i][3], "bytes", "small">>,
